@@ -46,7 +46,7 @@ def gen_plan(rng, tier):
             op.update({"op": "boot_default", "samples": rng.choice([1, 7, 50, 200, 500, None]), "save": rng.random() < 0.7})
         elif r < 0.75:
             op.update({"op": "boot_explicit", "samples": rng.choice([3, 20, 64, 150, "n", "n", "n+1", "n-1"]), "seed": rng.getrandbits(30), "table": rng.choice(["uniform", "uniform", "identityish", "identityish", "constant"]),
-                       "import": rng.random() < 0.7})
+                       "import": rng.random() < 0.7, "form": rng.choice(["int64", "int64", "int32", "uint8", "uint16", "int16", "list", "fortran", "view"])})
         elif r < 0.85:
             op.update({"op": "boot_roundtrip_default", "extra": rng.choice([0, 1, 10, 40])})
         else:
@@ -209,16 +209,32 @@ def execute(plan, ctx):
             else:
                 R = np.array([[(k + b) % n if rr.random() < 0.8 else rr.randrange(n) for k in range(n)] for b in range(ns)], dtype=np.int64)
             Rc = R.copy()
+            # the table as the caller holds it: any integer type, a nested list, Fortran order or a strided view
+            form = op.get("form", "int64")
+            if form == "uint8" and n > 255:
+                form = "uint16"
+            if form in ("int32", "uint8", "uint16", "int16"):
+                Rcall = R.astype(form)
+            elif form == "list":
+                Rcall = R.tolist()
+            elif form == "fortran":
+                Rcall = np.asfortranarray(R)
+            elif form == "view":
+                big = np.zeros((ns, 2 * n), dtype=np.int64)
+                big[:, ::2] = R
+                Rcall = big[:, ::2]
+            else:
+                Rcall = R
             try:
-                b = o.export_bootstrap(ns, random_numbers=R)
+                b = o.export_bootstrap(ns, random_numbers=Rcall)
             except Exception as e:
-                ctx.violation("c13.bootstrap_export", "export_bootstrap", "raised", "%s: %s" % (type(e).__name__, str(e)[:100]))
+                ctx.violation("c13.bootstrap_export", "export_bootstrap", "raised", "%s: %s (table given as %s)" % (type(e).__name__, str(e)[:100], form))
                 continue
-            if not np.array_equal(R, Rc):
+            if not np.array_equal(np.asarray(Rcall), Rc):
                 ctx.violation("c13.bootstrap_export", "export_bootstrap", "table_mutated", "the supplied random-number table was modified")
             if check_boot(ctx, o, x, b, R, ns, scale, op["table"]) and op["import"]:
-                imp(ctx, pe, o, x, b, name, R, scale, op["table"])
-            ctx.sig("boot_explicit", op["table"], "s%s" % ("lt" if ns < n else ("eq" if ns == n else "gt")), ncls(n), "import" if op["import"] else "export", "range" if isinstance(o.idl[name], range) else "list")
+                imp(ctx, pe, o, x, b, name, Rcall if form != "list" else R, scale, op["table"])
+            ctx.sig("boot_explicit", op["table"], op.get("form", "int64"), "s%s" % ("lt" if ns < n else ("eq" if ns == n else "gt")), ncls(n), "import" if op["import"] else "export", "range" if isinstance(o.idl[name], range) else "list")
         ctx.compared += 1
         if objs.data_digest(o) != digests[i]:
             ctx.violation("c13.data_altered", kind, "-", "the observable's data changed")
